@@ -470,8 +470,9 @@ def rule_partial(rep: Report, rid="C01.partial") -> None:
             rep.ob(rid + ".io", f"file-system call on the source text: {n[1]}({fi.params()[1]})", False, file=fi.file, line=n[3], function=q,
                    expected="source text is never used as a path", found=f"{n[1]}({fi.params()[1]}, ...) guarded by {[fmt(c, I) for c, p in nf.guards_in_ctx(ctx)]}")
     # parse hands its text to the scanner
-    pf = facts().func("gherkin.parser.Parser.parse")
-    hands = any(isinstance(n, ast.Call) and isinstance(n.func, ast.Name) and n.func.id == "TokenScanner" and n.args and isinstance(n.args[0], ast.Name)
-                and n.args[0].id == pf.params()[1] for n in ast.walk(pf.node))
+    from ..frame import parse_nf
+    P = parse_nf()
+    pf = P.fi
+    hands = any(len(n[2]) > 1 and n[2][1] == P.src for n, c in P.ev("new_scanner"))
     rep.ob(rid + ".io", "Parser.parse passes its source argument to the scanner (so scanner I/O is I/O on source text)", hands, file=pf.file, line=pf.node.lineno,
            function=pf.qualname, expected="TokenScanner(source)", found="as expected" if hands else "source is not given to TokenScanner")
